@@ -268,7 +268,7 @@ def run(ck, tier):
     sc = getattr(ck, "scale", 1.0)
     n = int((900 if tier == "quick" else 12000) * sc)
     common.pmap(lambda i: run_case(ck, paths, tools, i), range(n), workers=12)
-    multi_call(ck, paths)
+    multi_call(ck, build("rel"))   # glibc malloc: freed objects are reused at once (ASan would quarantine them)
     if ck.cov.get("certified", 0) < (200 if tier == "quick" else 2000) * min(1.0, sc):
         ck.note_inconclusive("only %d certified cases" % ck.cov.get("certified", 0))
     ck.rule = ("planted pairwise alignments (random core, 0-20% substitutions, indels of 1..25 separated by >= 12 (sometimes only 3 or 6) conserved columns, terminal overhangs 0..150) for all five "
